@@ -47,6 +47,17 @@ Proof. induction cs; simpl; auto. Qed.
 Lemma overlaps_nil_r used : overlaps used [] = false.
 Proof. unfold overlaps. induction used; simpl; auto. Qed.
 
+(* the fragment has no starred arguments (F30: those calls are left as calls) *)
+Lemma fragr_no_star :
+  (forall cl e, fragr cl e -> is_starred e = false) /\
+  (forall cl l, fragrs cl l -> existsb is_starred l = false).
+Proof.
+  apply fragr_mutind; intros; try reflexivity. cbn [existsb]. rewrite H, H0. reflexivity.
+Qed.
+
+Lemma consts_no_star cs : existsb is_starred (map Const cs) = false.
+Proof. induction cs; simpl; auto. Qed.
+
 (* inside [fragr false] nothing binds: the bail-out of FC4 cannot fire for such a body *)
 Lemma fragr_false_no_binders :
   (forall cl e, fragr cl e -> cl = false -> inner_binders e = []) /\
@@ -61,9 +72,9 @@ Proof.
   - (* IfExp *) rewrite H, H0, H1. reflexivity.
   - (* Subscript *) rewrite H, H0. reflexivity.
   - (* method call without arguments *) cbn [inner_binders]. rewrite H. reflexivity.
-  - (* called lambda *) rewrite H0. rewrite e, Nat.eqb_refl. exact H.
+  - (* called lambda *) rewrite H0. rewrite e, Nat.eqb_refl, (proj2 fragr_no_star _ _ f). exact H.
   - (* called lambda, constant arguments *)
-    rewrite H. rewrite map_length, e, Nat.eqb_refl. apply flat_binders_consts.
+    rewrite H. rewrite map_length, e, Nat.eqb_refl, consts_no_star. apply flat_binders_consts.
   - (* cons *) rewrite H, H0. reflexivity.
 Qed.
 
@@ -180,8 +191,8 @@ Section Sem.
       apply option_map_refines. apply omap_refines. intros v.
       apply IHelt; [intros _; apply closed_shadow; auto | apply Rr_shadow1; auto].
     - (* an inlined call *)
-      intros cl ps b args Hlen _ IHargs Hfb IHb st E1 E2 Hc HR. cbn [res eval].
-      rewrite Hlen, Nat.eqb_refl.
+      intros cl ps b args Hlen Hfa IHargs Hfb IHb st E1 E2 Hc HR. cbn [res eval].
+      rewrite Hlen, Nat.eqb_refl, (proj2 fragr_no_star _ _ Hfa).
       rewrite (proj1 fragr_false_no_binders false b Hfb eq_refl), overlaps_nil_r.
       intros w Hw. apply obind_some in Hw. destruct Hw as [vs [Hvs Hw]].
       apply obind_some in Hw. destruct Hw as [E' [HE' Hw]].
@@ -196,7 +207,7 @@ Section Sem.
       + rewrite Hfr. exact (HR x).
     - (* a call with constant arguments: the frame is closed, binders may stay in the body *)
       intros cl ps b cs Hlen _ IHb st E1 E2 Hc HR. cbn [res eval].
-      rewrite map_length, Hlen, Nat.eqb_refl.
+      rewrite map_length, Hlen, Nat.eqb_refl, consts_no_star.
       assert (Hres : map (res st) (map Const cs) = map Const cs).
       { clear. induction cs; simpl; [reflexivity|]. rewrite IHcs. reflexivity. }
       assert (Hnm : flat_map names_in (map Const cs) = []).
